@@ -1,6 +1,7 @@
 //! hv-sim: drivers that need the `elvis` crate (address generator, DHCP, routers, NDL).
 mod ipgen;
 mod lifeh;
+mod ndlh;
 mod routerh;
 pub use hv_common::{simh, util};
 use util::*;
@@ -16,6 +17,8 @@ fn main() {
         "ipgen-drive" => ipgen::drive(&args),
         "life-drive" => lifeh::drive(&args),
         "router-drive" => routerh::drive(&args),
+        "ndl-parse" => ndlh::parse(&args),
+        "ndl-run" => ndlh::run(&args),
         other => {
             eprintln!("unknown command {other}");
             std::process::exit(2);
